@@ -520,6 +520,12 @@ func (x *Exec) monitorAcquire(st *State, md *MonitorDef, sty types.Type, base st
 		x.vc.oblige(&Obl{Name: fmt.Sprintf("%s/locks-declared/%s.%s", x.prefix, md.Type, md.Lock), Kind: "locks-declared", Props: x.props, Reach: st.reach, Goal: or(alts...),
 			Src: "monitor " + md.Type + "." + md.Lock + " acquired: the contract must declare `locks <object>`"})
 	}
+	if x.depth == 0 {
+		if x.acquiredObjs == nil {
+			x.acquiredObjs = map[string]bool{}
+		}
+		x.acquiredObjs[base] = true
+	}
 	x.havocProtected(st, md, sty, base)
 	// the contract of a function that `locks` this object is relative to the acquisition state
 	if x.depth == 0 && x.con != nil && len(x.con.Locks) > 0 {
@@ -661,6 +667,7 @@ func (x *Exec) callerAcquire(st *State, tgt *target, recv *val, args []val, site
 		if md == nil {
 			panic(contractErr("locks: no monitor declared for " + pt.Elem().String()))
 		}
+		x.noReentrantAcquire(st, tgt, md, pt.Elem(), o.t, site)
 		// while this thread holds the lock (in either mode) nobody else can have changed the protected fields
 		x.havocProtectedUnlessHeld(st, md, pt.Elem(), o.t)
 	}
@@ -1444,4 +1451,76 @@ func (x *Exec) copyBuiltin(st *State, in ssa.Instruction, cc *ssa.CallCommon, re
 	if res != nil {
 		x.vals[res] = n
 	}
+}
+
+// noReentrantAcquire: the callee acquires the monitor lock of `base` (its contract says `locks`). sync locks are not
+// reentrant - a second acquisition by the thread that holds the lock never returns (Mutex, RWMutex.Lock), or returns
+// only as long as no writer is waiting (RWMutex.RLock after RLock) - so the calling activation must not hold that lock.
+// The obligation is relative to the activation's own view: it was entered holding exactly the locks its contract
+// requires (held / wheld / rheld in `requires`); whether a caller further up holds the lock is that caller's obligation.
+func (x *Exec) noReentrantAcquire(st *State, tgt *target, md *MonitorDef, sty types.Type, base string, site string) {
+	if x.depth != 0 || x.con == nil || x.entry0 == nil {
+		return
+	}
+	s, ok := sty.Underlying().(*types.Struct)
+	if !ok {
+		return
+	}
+	li := -1
+	for i := 0; i < s.NumFields(); i++ {
+		if s.Field(i).Name() == md.Lock {
+			li = i
+		}
+	}
+	if li < 0 {
+		return
+	}
+	vc := x.vc
+	vc.regComp("Held", "(Array Int Int)")
+	lockRef := vc.subRef(sty, li, base)
+	// locks the contract says are held on entry
+	var reqHeld []string
+	var collect func(c *CExpr, env *Env)
+	collect = func(c *CExpr, env *Env) {
+		if c == nil {
+			return
+		}
+		if c.Op == "call" && (c.Name == "held" || c.Name == "wheld" || c.Name == "rheld") && len(c.Args) == 1 {
+			func() {
+				defer func() { recover() }()
+				reqHeld = append(reqHeld, env.eval(c.Args[0]).t)
+			}()
+			return
+		}
+		if c.Op == "forall" || c.Op == "exists" {
+			return
+		}
+		for _, a := range c.Args {
+			collect(a, env)
+		}
+	}
+	envE := x.newEnv(x.entry0, x.entry0)
+	for _, cl := range x.con.Req {
+		collect(cl.Expr, envE)
+	}
+	// Only definite re-acquisitions are asked about: the object is the very one this activation locked itself, or one
+	// whose lock its contract says it is entered with. (Whether two different expressions - a node and its child, say -
+	// may denote the same object is a shape question the lock discipline does not answer.)
+	known := x.acquiredObjs[base]
+	for _, a := range reqHeld {
+		if a == lockRef {
+			known = true
+		}
+	}
+	if !known {
+		return
+	}
+	hyp := []string{}
+	for _, a := range reqHeld {
+		hyp = append(hyp, not(eq(lockRef, a)))
+	}
+	cleanEntry := implies(and(hyp...), eq(sel(vc.get(x.entry0, "Held"), lockRef), "0"))
+	goal := or(eq(base, "0"), implies(cleanEntry, eq(sel(vc.get(st, "Held"), lockRef), "0")))
+	vc.oblige(&Obl{Name: x.prefix + "/pre/" + site + "/lock-not-held-by-this-activation/" + md.Type + "." + md.Lock, Kind: "pre", Props: x.props, Reach: st.reach, Goal: goal,
+		Src: tgt.display + " acquires " + md.Type + "." + md.Lock + " of its argument: the calling activation must not hold that lock (sync locks are not reentrant)"})
 }
